@@ -418,6 +418,11 @@ def symarray(name, shape, sort="real"):
 def lift(a):
     """numpy array / nested list of numbers and S -> object array of S"""
     arr = _np.array(a, dtype=object)
+    if Tracer.current is None and not any(isinstance(v, (S, SB)) for v in arr.ravel()):
+        try:
+            return _np.array(a, dtype=float)        # concrete replay: plain numpy
+        except (TypeError, ValueError):
+            pass
     out = _np.empty(arr.shape, dtype=object)
     for idx in _np.ndindex(*arr.shape):
         v = arr[idx]
@@ -454,6 +459,8 @@ class NPShim:
     asanyarray = asarray
 
     def zeros(self, shape, dtype=None, **kw):
+        if Tracer.current is None:
+            return _np.zeros(shape)
         a = _np.empty(shape, dtype=object)
         a.fill(S(z3.RealVal(0)))
         return a
